@@ -167,7 +167,7 @@ func instrumentImpl(bdir string, repl map[string]string) error {
 			buf.WriteString("\nvar _ = zzsched.P\n")
 			dst := filepath.Join(outRoot, pkg, name)
 			os.MkdirAll(filepath.Dir(dst), 0o755)
-			if err := os.WriteFile(dst, buf.Bytes(), 0o644); err != nil {
+			if err := writeAtomic(dst, buf.Bytes()); err != nil {
 				return err
 			}
 			repl[src] = dst
@@ -182,7 +182,7 @@ func instrumentImpl(bdir string, repl map[string]string) error {
 		g.WriteString("\t}\n}\n")
 		dst := filepath.Join(outRoot, pkg, "zz_verif_globals.go")
 		os.MkdirAll(filepath.Dir(dst), 0o755)
-		if err := os.WriteFile(dst, g.Bytes(), 0o644); err != nil {
+		if err := writeAtomic(dst, g.Bytes()); err != nil {
 			return err
 		}
 		repl[filepath.Join(dir, "zz_verif_globals.go")] = dst
